@@ -776,6 +776,7 @@ def run(facts, prop=None):
     has_std = any(c == 'feature="std"' for c in facts.cfg)
     if has_std:
         check_rw(res, facts)
+        check_rw_extra(res, facts)
         check_take_vectored(res, facts)
         check_take_vectored_budget(res, facts)
     check_has_overrides(res, facts)
@@ -1077,3 +1078,110 @@ def check_has_overrides(res, facts):
             else:
                 res.bad(key, hb.loc(), "the answer %s is not `%s() != 0` of this impl (%s = %s)" % (fmt_expr(hv)[:80], rem_m, rem_m, fmt_expr(rv)[:60] if rv is not None else "provided"))
     res.floor("has_remaining overrides outside the adapters", n, 2)
+
+
+def check_rw_extra(res, facts):
+    """every other method the Reader / Writer adapters implement from std::io::{Read, Write} themselves and that reports a byte count
+    (`read_to_end`, `read_vectored`, `write_vectored`, ..): on every path the count returned is the number of bytes that went through
+    `self.buf` on that path (copy_to_slice(s): len(s), advance(n) / copy_to_bytes(n) / put_bytes(_, n): n, put_slice(s): len(s)) - entailed
+    from the state at the end of the path (Vec effects applied: resize, reserve, set_len; slices `&mut v[a..]` have length len(v) - a) in the
+    linear domain.  Methods with loops are left to the dataflow rules (C9); a path with a transfer this rule cannot measure is not judged."""
+    from .pathstate import StatePathBuilder, root_of
+    from .flow import cfg_of as _cfg
+    from .lin import State
+    buf_f = self_field("buf")
+    XFER = {"copy_to_slice": ("slice", 1), "try_copy_to_slice": ("slice", 1), "put_slice": ("slice", 1), "advance": ("int", 1), "advance_mut": ("int", 1),
+            "copy_to_bytes": ("int", 1), "put_bytes": ("int", 2)}
+    NEUTRAL = ("remaining", "remaining_mut", "has_remaining", "has_remaining_mut", "chunk", "chunk_mut", "chunks_vectored")
+    for (tr, head, known) in (("std::io::Read", "buf::reader::Reader", ("read",)), ("std::io::Write", "buf::writer::Writer", ("write", "flush"))):
+        im = [i for i in facts.impls if i.get("trait") == tr and i["self_ty"].startswith(head)]
+        if len(im) != 1:
+            continue
+        for it in im[0]["items"]:
+            b = facts.by_did.get(it.get("did"))
+            if b is None or it["name"] in known or "usize" not in b.locals[0]["ty"]:
+                continue
+            key = "%s::%s|count reported = bytes transferred" % (head.rsplit("::", 1)[-1], it["name"])
+            cfg = _cfg(b)
+            if any(cfg.reaches(i_, i_) for i_ in range(len(b.blocks)) if not b.blocks[i_]["cleanup"]):
+                res.ok(key, b.loc(), "has a loop: left to the cursor dataflow (C9)")
+                continue
+            prob = None
+            n_paths = 0
+            for path in enumerate_paths(b, limit=400):
+                sp = StatePathBuilder(b, facts, path, inline=False)
+
+                def slice_len(e, loc, depth=0):
+                    e = canon(e)
+                    while isinstance(e, tuple) and e and e[0] in ("ref", "deref"):
+                        e = e[1]
+                    if depth > 6 or not isinstance(e, tuple) or not e:
+                        return None
+                    if e[0] == "call":
+                        nm = e[1].rsplit("::", 1)[-1]
+                        if nm in ("index", "index_mut") and len(e[2]) == 2 and isinstance(e[2][1], tuple) and e[2][1][0] == "agg":
+                            rng, ops = str(e[2][1][1]), e[2][1][2]
+                            base = slice_len(e[2][0], loc, depth + 1)
+                            if "RangeFull" in rng:
+                                return base
+                            if "RangeFrom" in rng:
+                                return ("bin", "Sub", base, ops[0]) if base is not None else None
+                            if "RangeTo" in rng:
+                                return ops[0]
+                            if rng.endswith("Range',)") or "Range" in rng:
+                                return ("bin", "Sub", ops[1], ops[0]) if len(ops) == 2 else None
+                        if nm in ("deref", "deref_mut", "as_mut_slice", "as_slice", "borrow", "borrow_mut", "as_mut", "as_ref") and len(e[2]) == 1 and "alloc::vec::Vec" in e[1]:
+                            r_ = root_of(e[2][0])
+                            return ("vecprop", "len", r_, sp.version(r_, loc))
+                    if e[0] == "param":
+                        ty = b.locals[e[1]]["ty"]
+                        if "alloc::vec::Vec" in ty:
+                            return ("vecprop", "len", e, sp.version(e, loc))
+                        return ("call", "core::slice::<impl [T]>::len", (e,))
+                    return None
+                amounts, unknown = [], False
+                for pb in path:
+                    t = b.blocks[pb]["term"]
+                    if t["k"] != "call" or not t["args"]:
+                        continue
+                    fn = callee(t)
+                    if fn is None:
+                        continue
+                    loc = (pb, len(b.blocks[pb]["stmts"]))
+                    recv = strip_refs(canon(sp.operand(t["args"][0], loc)))
+                    if not buf_f(recv):
+                        continue
+                    nm = fn["name"]
+                    if nm in NEUTRAL:
+                        continue
+                    if nm in XFER and len(t["args"]) > XFER[nm][1]:
+                        kind, i_ = XFER[nm]
+                        a_ = sp.operand(t["args"][i_], loc)
+                        amt = canon(a_) if kind == "int" else slice_len(a_, loc)
+                        if amt is None:
+                            unknown = True
+                        else:
+                            amounts.append(amt)
+                    else:
+                        unknown = True
+                if unknown:
+                    continue
+                ret = canon(sp.local(0, (path[-1], len(b.blocks[path[-1]]["stmts"]))))
+                if not (isinstance(ret, tuple) and ret and ret[0] == "agg" and "Ok" in str(ret[1]) and ret[2]):
+                    continue
+                n_paths += 1
+                total = ("const", 0)
+                for x in amounts:
+                    total = ("bin", "Add", total, x) if total != ("const", 0) else x
+                st = State([r for r in sp.path_relations() if r and r[0] in ("lt", "le", "eq", "ne")] + sp.vec_facts(), facts=facts)
+                if st.refuted():
+                    continue
+                if not st.entails(("eq", ret[2][0], total)):
+                    prob = "on the path bb%s the method reports %s but %s byte(s) went through self.buf" % ("->bb".join(str(x) for x in path), fmt_expr(ret[2][0])[:50], fmt_expr(canon(total))[:90])
+                    break
+            if prob:
+                res.bad(key, b.loc(), prob + ": the count, the caller's buffer and the inner cursor disagree")
+            elif n_paths:
+                res.ok(key, b.loc(), "%d path(s): the count returned equals the bytes moved through self.buf" % n_paths, nontrivial=True)
+            else:
+                res.ok(key, b.loc(), "no path this clause can measure")
